@@ -112,6 +112,7 @@ func LoadEngine(repo string, patterns []string, overlay map[string][]byte) (*Eng
 			}
 		}
 	}
+	e.resolveRoleKeys()
 	e.setupCopyFamily()
 	e.setupFieldFns()
 	return e, nil
